@@ -30,7 +30,7 @@ def required(tier):
     return ["time:direct query", "time:tempo event", "time:time-signature event", "time:text event", "time:section event",
             "time:lyric event", "time:note", "time:note end", "time:star-power event", "time:track event",
             "tick_at_tempo_change", "tick_past_last_tempo", "fraction_within_1e-3_of_half_us", "segment:10-499", "segment:500+",
-            "bpm_below_1", "bpm_at_least_1e5", "directed_half_boundary", "concurrent_stage", "ambient_decimal_context_lowered"]
+            "bpm_below_1", "bpm_at_least_1e5", "directed_half_boundary", "concurrent_stage", "ambient_decimal_context_lowered", "ticks_around_2^31..10^12"]
 
 
 def shards(tier, seed):
@@ -152,6 +152,9 @@ def run_shard(shard, rec, tier, seed):
             case = directed_case(rng)
             if case is None:
                 continue
+        elif i % 25 == 3:
+            case = gen.huge_tick_chart(rng)
+            rec.cls("ticks_around_2^31..10^12")
         else:
             prof = "hostile" if i % 2 else "realistic"
             case = gen.gen_chart(rng, prof, n_tempos=rng.choice([1, 2, 3, 5, 12, 30, 80]) if prof == "hostile" else None)
